@@ -181,6 +181,9 @@ impl<'a> M<'a> {
                     self.q[2].push_back((Ctl::Delete(None), tk));
                 }
                 Op::ToWait => self.q[1].push_back((Ctl::Op(id, st.op.clone()), tk)),
+                // the bare variants, sent by hand: normal priority, nothing put in front
+                Op::RawNextEnding => self.q[0].push_back((Ctl::Op(id, Op::ToWait), tk)),
+                Op::RawDelete => self.q[0].push_back((Ctl::Delete(None), tk)),
                 op => self.q[0].push_back((Ctl::Op(id, op.clone()), tk)),
             }
         }
@@ -461,7 +464,7 @@ impl<'a> M<'a> {
                 self.resolve(tk);
                 self.end_task();
             }
-            Ctl::Op(_, Op::Restart | Op::RestartSig { .. } | Op::Delete | Op::DeleteNow) => unreachable!("composites are expanded on arrival"),
+            Ctl::Op(_, Op::Restart | Op::RestartSig { .. } | Op::Delete | Op::DeleteNow | Op::RawDelete | Op::RawNextEnding) => unreachable!("composites are expanded on arrival"),
             Ctl::Op(_, Op::RunStall { .. }) => unreachable!("not modelled: filtered out before the model runs"),
         }
     }
@@ -695,7 +698,7 @@ pub fn observed_trace(scn: &E1Scn, out: &RunOut) -> Vec<(u64, Obs)> {
 // ------------------------------------------------------------------------------------------
 // scenario generation: bounded-exhaustive + random, single sender, tie-avoiding durations
 
-/// alphabet for the exhaustive part (22 letters)
+/// alphabet for the exhaustive part (24 letters)
 fn letter(k: u64, sig: &mut e1::SigAlloc) -> Op {
     match k {
         0 => Op::Start,
@@ -722,13 +725,16 @@ fn letter(k: u64, sig: &mut e1::SigAlloc) -> Op {
         // re-entrancy: closures that send a control to their own job from inside the job task
         19 => Op::RunSend { async_ms: None, inner: Box::new(inner_step(Op::Start)) },
         20 => Op::RunSend { async_ms: Some(7), inner: Box::new(inner_step(Op::TryRestart)) },
-        _ => Op::RunSend { async_ms: None, inner: Box::new(inner_step(Op::ToWait)) },
+        21 => Op::RunSend { async_ms: None, inner: Box::new(inner_step(Op::ToWait)) },
+        // the bare Delete / NextEnding variants, sent by hand
+        22 => Op::RawDelete,
+        _ => Op::RawNextEnding,
     }
 }
 fn inner_step(op: Op) -> Step {
     Step { gap: 0, op, waiters: 1, inline: false, cancel_after: None, late_clone: None }
 }
-pub const ALPHA: u64 = 22;
+pub const ALPHA: u64 = 24;
 /// child behaviour classes with durations chosen off the grid of send instants and graces
 fn klass(k: u64) -> ChildSpec {
     match k {
@@ -824,7 +830,7 @@ pub fn gen_model_random(rng: &mut Rng) -> E1Scn {
             Op::SetHook { async_ms: Some(ms) } => *ms = *rng.pick(&[3u64, 11, 45]),
             Op::RunSend { async_ms, inner } => {
                 *async_ms = *rng.pick(&[None, None, Some(0u64), Some(7), Some(31)]);
-                let mut io = letter(rng.below(19), &mut sigs);
+                let mut io = letter(*rng.pick(&[0u64, 1, 2, 3, 4, 5, 6, 7, 8, 9, 10, 11, 12, 13, 14, 15, 16, 17, 18, 22, 23]), &mut sigs);
                 if let Op::StopSig { grace, .. } | Op::RestartSig { grace, .. } | Op::TryRestartSig { grace, .. } = &mut io {
                     *grace = *rng.pick(&graces);
                 }
